@@ -77,6 +77,60 @@ class Client(H.Server):
         return None
 
 
+class Follower:
+    """a live subscriber of all contexts (GET /?follow=true): everything broadcast while it is connected, ephemeral frames
+    included - they are never stored, so this is the only place they can be observed"""
+
+    def __init__(self, cl):
+        import socket, threading
+        self.s = socket.socket(socket.AF_UNIX, socket.SOCK_STREAM)
+        self.s.connect(cl.sock)
+        self.s.sendall(H.render("GET", "/?follow=true", {"Connection": "keep-alive"}))
+        self.buf = b""
+        self.stop = False
+        self.t = threading.Thread(target=self._pump, daemon=True)
+        self.t.start()
+
+    def _pump(self):
+        self.s.settimeout(0.2)
+        while not self.stop:
+            try:
+                ch = self.s.recv(1 << 16)
+                if not ch:
+                    break
+                self.buf += ch
+            except Exception:
+                continue
+
+    def frames(self):
+        """-> frames in the shape of Client.frames()"""
+        self.stop = True
+        self.t.join(timeout=2)
+        try:
+            self.s.close()
+        except Exception:
+            pass
+        out = []
+        for l in self.buf.split(b"\n"):
+            l = l.strip()
+            if l.startswith(b"{") and l.endswith(b"}"):
+                try:
+                    j = json.loads(l)
+                    out.append(dict(id=H.s_to_id(j["id"]), ctx=H.s_to_id(j["context_id"]), topic=j["topic"], hash=j.get("hash"),
+                                    meta=j.get("meta"), ttl=H.frame_canon(j).split(",")[-1] if False else _ttl_canon(j.get("ttl"))))
+                except Exception:
+                    pass
+        return out
+
+
+def _ttl_canon(t):
+    if t is None:
+        return "-"
+    if t.startswith(("time:", "head:")):
+        return t.split(":")[0] + ":%x" % int(t.split(":")[1])
+    return t
+
+
 # ---- handler script DSL ----------------------------------------------------------------------
 def nu_str(s):
     return json.dumps(s, ensure_ascii=False)
@@ -97,6 +151,8 @@ def render_handler(p):
     body = []
     if p.get("guard") is not None:
         body.append(f"    if $frame.topic != {nu_str(p['guard'])} {{ return }}")
+    if p.get("slow_ms"):
+        body.insert(0, f"    if $frame.topic == \"slow\" {{ sleep {p['slow_ms']}ms }}")
     body.append("    $env.count = (($env.count? | default 0) + 1)")
     fail = p.get("fail", "none")
     if fail == "before":
@@ -125,6 +181,8 @@ def render_handler(p):
         body.append("    $env.count")
     elif ret == "topic":
         body.append("    $frame.topic")
+    elif ret == "frame":
+        body.append("    $frame")
     lines.append("  run: {|frame|\n" + "\n".join(body) + "\n  }")
     lines.append("}")
     return "\n".join(lines)
@@ -145,6 +203,8 @@ def model_handler(conf, p, delivered):
              f"suffix={xh(p.get('suffix') or '.out')} ttl={ttl_tok(p.get('ttl'))}"]
     fail = p.get("fail", "none")
     ret = p.get("ret", "nothing")
+    if ret == "frame":
+        ret = "topic"     # same emission structure; the content (the frame record as JSON) is filled in by the caller
     if ret.startswith("str:"):
         ret = "str:" + xh(ret[4:])
     elif ret.startswith("int:"):
@@ -226,19 +286,21 @@ def gen_prog(r, name, ctxs, k=0):
         outs = outs + [name + ".unregister"] * 3
     appends = []
     for _ in range(r.choice([0, 0, 1, 2, 3])):
+        tp = r.choice(outs)
         appends.append(dict(
-            topic=r.choice(outs),
+            topic=tp,
             meta=r.choice([None, None, {"k": 1}, {"handler_id": "zzz", "frame_id": "yyy", "u": "v"}, {"n": 7, "s": "t"}]),
-            ttl=r.choice([None, None, "forever", "time:600000"]),
+            # ephemeral outputs only on a topic nothing reacts to (they reach live subscribers only)
+            ttl=r.choice([None, None, "forever", "time:600000"] + (["ephemeral", "ephemeral"] if tp == "aux" else [])),
             ctx=r.choice([None, None] + ctxs),
             content=r.choice(["c1", "héllo wörld", "x" * 300])))
     fail = r.choices(["none", "before", "after", "between"], [8, 1, 1, 1])[0]
     if fail == "between":
         fail = f"between:{r.randrange(0, len(appends) + 1)}"
     return dict(guard=guard, appends=appends,
-                ret=r.choice(["nothing", "count", "count", "str:pong", "int:42", "topic"]),
-                fail=fail, resume=r.choice(["tail", "tail", "head", "after"]),
-                suffix=r.choice([None, None, ".x", ".reply"]), ttl=r.choice([None, None, "time:600000", "forever"]))
+                ret=r.choice(["nothing", "count", "count", "str:pong", "int:42", "topic", "frame", "frame"]),
+                fail=fail, resume=r.choice(["tail", "tail", "head", "after"]), slow_ms=r.choice([0, 0, 1200]),
+                suffix=r.choice([None, None, ".x", ".reply"]), ttl=r.choice([None, None, "time:600000", "forever", "ephemeral"]))
 
 
 def run_handler_scenario(seed, n_events=14):
@@ -254,6 +316,8 @@ def run_handler_scenario(seed, n_events=14):
                 ctxs.append(c)
         instances = []   # dict(id, ctx, name, prog, kind)
         forged = set()
+        fol = Follower(cl)
+        time.sleep(0.1)
         # some history before any handler exists
         pre = []
         for _ in range(r.choice([0, 3, 6])):
@@ -261,12 +325,12 @@ def run_handler_scenario(seed, n_events=14):
             if i:
                 pre.append(i)
 
-        def register(name, ctx, quick=False):
+        def register(name, ctx, quick=False, forced=None):
             kind = r.choices(["ok", "parse_error", "no_arg"], [10, 1, 1])[0]
-            if quick:
+            if quick or forced:
                 kind = "ok"
             if kind == "ok":
-                p = gen_prog(r, name, ctxs, len(instances))
+                p = dict(forced) if forced else gen_prog(r, name, ctxs, len(instances))
                 if quick:
                     p["resume"] = "head"
                 if p["resume"] == "after":
@@ -303,7 +367,19 @@ def run_handler_scenario(seed, n_events=14):
             else:
                 cl.wait_topic(name + ".unregistered", ctx=ctx, after=hid)
 
-        register("h1", r.choice(ctxs))
+        if r.random() < 0.5:
+            # a two-stage pipeline in one context: h1 answers `trig` with a stored `side` frame and an EPHEMERAL `aux` frame (content
+            # in CAS although never stored); h2 reacts to `side` - a frame stamped by h1 - and returns that frame itself
+            c0 = r.choice(ctxs)
+            register("h1", c0, forced=dict(guard="trig", fail="none", resume="tail", ret="count", suffix=None, ttl=None, slow_ms=0,
+                                          appends=[dict(topic="side", meta={"k": 1}, ttl=None, ctx=None, content="c1"),
+                                                   dict(topic="aux", meta=None, ttl="ephemeral", ctx=None, content="héllo wörld")]))
+            register("h2", c0, forced=dict(guard="side", fail="none", resume="tail", ret="frame", suffix=r.choice([None, ".x"]),
+                                          ttl=r.choice([None, "ephemeral"]), slow_ms=0, appends=[]))
+            for _ in range(2):
+                cl.append("trig", ctx=c0, body=b"t"); report["triggers"] += 1
+        else:
+            register("h1", r.choice(ctxs))
         for _ in range(n_events):
             k = r.choices(["trig", "other", "register", "unregister", "forged", "burst", "quickreg"], [8, 3, 2, 1, 1, 1, 1])[0]
             if k == "trig":
@@ -324,8 +400,31 @@ def run_handler_scenario(seed, n_events=14):
             elif k == "burst":
                 for _ in range(5):
                     cl.append("trig", ctx=r.choice(ctxs), body=b"b"); report["triggers"] += 1
+        # a burst from several writers while a handler is busy with one frame: nothing may be skipped, reordered or lost
+        slow = [i for i in instances if i["kind"] == "ok" and i["prog"] and i["prog"].get("slow_ms")]
+        if slow and r.random() < 0.6:
+            import threading
+            inst = r.choice(slow)
+            cl.append("slow", ctx=inst["ctx"])
+            def writer(seed_):
+                rr = random.Random(seed_)
+                for _ in range(100):
+                    cl.append(rr.choice(["trig", "trig", "other", "t0"]), ctx=inst["ctx"], body=b"w")
+            ths = [threading.Thread(target=writer, args=(r.getrandbits(32),)) for _ in range(3)]
+            for t in ths:
+                t.start()
+            for t in ths:
+                t.join()
+            report["triggers"] += 300
+            report["bursts_while_busy"] = report.get("bursts_while_busy", 0) + 1
+            cl.settle(0.8, 60)
         cl.settle()
-        fr = cl.frames()
+        stored = cl.frames()
+        eph = [f for f in fol.frames() if f["ttl"] == "ephemeral"]
+        report["ephemeral_outputs_seen_by_follower"] = len(eph)
+        have = {f["id"] for f in stored}
+        fr = sorted(stored + [f for f in eph if f["id"] not in have], key=lambda f: f["id"])
+        by_id = {f["id"]: f for f in fr}
         report["instances"] = len(instances)
         for inst in instances:
             hs = H.id_to_s(inst["id"])
@@ -349,6 +448,18 @@ def run_handler_scenario(seed, n_events=14):
                 start = H.s_to_id(p["resume"])
             delivered = [f for f in fr if f["ctx"] == inst["ctx"] and f["id"] > start]
             em, seen = model_handler(dict(id=inst["id"], ctx=inst["ctx"], name=inst["name"]), p, delivered)
+            if p.get("ret") == "frame":
+                # the return value is the triggering frame as a record: value_to_json(..).to_string() = compact JSON
+                for e in em:
+                    if e["topic"] == inst["name"] + (p.get("suffix") or ".out") and e["fid"] in by_id and not e["err"]:
+                        t = by_id[e["fid"]]
+                        rec = {"id": H.id_to_s(t["id"]), "topic": t["topic"], "context_id": H.id_to_s(t["ctx"])}
+                        if t["hash"]:
+                            rec["hash"] = t["hash"]
+                        if t["meta"] is not None:
+                            rec["meta"] = t["meta"]
+                        # (member order = the record's own order: serde_json is built with preserve_order here)
+                        e["content"] = json.dumps(rec, separators=(",", ":"), ensure_ascii=False).encode()
             report["invocations"] += len(seen)
             if em != obs:
                 k = next((i for i, (a, b) in enumerate(zip(em, obs)) if a != b), min(len(em), len(obs)))
@@ -1224,9 +1335,11 @@ def wire_boundary_probe(seed):
                     out["accepted"].append((t, "?"))
             else:
                 out["rejected"] += 1
-            if not ok and (st is None or not (400 <= st < 500) or len(after) != len(before)):
-                out["violations"].append(dict(what=f"POST /wire?ttl={t!r} (malformed TTL) answered {st} and the store went from {len(before)} to "
-                                                   f"{len(after)} frames; expected a 4xx and nothing stored"))
+            # (frames stored earlier may expire or be trimmed meanwhile: only NEW frames count)
+            new = [f for f in after if f.split(",")[0] not in {b.split(",")[0] for b in before}]
+            if not ok and (st is None or not (400 <= st < 500) or new):
+                out["violations"].append(dict(what=f"POST /wire?ttl={t!r} (malformed TTL) answered {st} and {len(new)} new frame(s) were stored; "
+                                                   f"expected a 4xx and nothing stored"))
             if ok and st != 200:
                 out["violations"].append(dict(what=f"POST /wire?ttl={t!r} (well-formed TTL) answered {st}"))
         for q in ["limit=-1", "limit=x", "limit=18446744073709551616", "last-id=zz", "context-id=1", "follow=maybe", "tail=true&tail=false",
